@@ -20,7 +20,7 @@ CHECKS = {
         engine="E1 sched",
         category="model_checking",
         technique="explicit-state model checking of the real handlers: breadth-first search over database images, every delivery order x bounded lost-ack faults, canonical-state deduplication",
-        text="Exhaustive within bounds: every delivery order of pending messages of every listed workload, with up to 1 (quick) / 2 (thorough) deliveries whose worker dies before the processed-mark or before the ack and is redelivered after lock expiry at any later point; oracle = admissible outcome set + 'no execution after a recorded result' + legal durable transitions. Each transition is a real process_one() call, so trace validation against the implementation is total.",
+        text="Exhaustive within bounds: every delivery order of pending messages of every listed workload, with up to 1 (quick) / 2 (thorough) deliveries whose worker dies right after the claim, before the processed-mark or before the ack and is redelivered after lock expiry at any later point; oracle = admissible outcome set (and, where every task plainly succeeds, SUCCEEDED - the in-order run is not trusted as its own reference) + 'no execution after a recorded result' + legal durable transitions. Each transition is a real process_one() call, so trace validation against the implementation is total.",
         design_ref="5 (C02), 3 (E1)",
         note=E1_NOTE,
     ),
@@ -36,7 +36,7 @@ CHECKS = {
         engine="E1 sched",
         category="model_checking",
         technique="explicit-state model checking of the real handlers over every DAG shape up to 4 stages: all delivery orders x injected early/duplicate StartStage, join oracle evaluated on durable audit rows",
-        text="For every DAG on <=4 stages up to isomorphism (all succeed / each single stage halting) and every join type workload: all delivery orders with 1 (quick) / 2 (thorough) spurious StartStage messages for any stage at any point (+1 lost ack in thorough). At every durable NOT_STARTED->RUNNING of a stage the published join semantics is evaluated on the pre-state's upstream rows.",
+        text="For every DAG on <=4 stages up to isomorphism (all succeed / each single stage halting), every join type workload, loops with one and two jump targets, and six workloads run next to an older bystander workflow that uses the same ref_ids with other dependencies: all delivery orders with 1 (quick) / 2 (thorough) spurious StartStage messages for any stage at any point (+1 lost ack in thorough). At every durable NOT_STARTED->RUNNING of a stage the published join semantics is evaluated on the pre-state's upstream rows.",
         design_ref="5 (C03)",
         note=E1_NOTE,
     ),
@@ -44,7 +44,7 @@ CHECKS = {
         engine="E1 sched",
         category="model_checking",
         technique="explicit-state model checking of the real handlers; invariant evaluated in every quiescent state (empty queue) reached under every delivery order x bounded faults",
-        text="Every quiescent state reachable under all delivery orders (+1 lost ack on the small workloads, + an injected cancel) of the workload family incl. failing branches next to running ones, early-firing joins, synthetic before/after stages, jump loops: workflow final or explicitly waiting, outcome function consistent, nothing running under a finished workflow, DLQ empty.",
+        text="Every quiescent state reachable under all delivery orders (+1 worker death on the small workloads, + an injected cancel, + operator pause/resume; + ONE transient database error before any statement of any delivery of the in-order run of 12 workloads) of the workload family incl. failing branches next to running ones, early-firing joins, synthetic before/after stages, jump loops, a builder that raises while planning: workflow final or explicitly waiting, outcome function consistent, nothing running under a finished workflow, DLQ empty. E3: two workflows of one pipeline config with max_concurrent_executions=1, StartWorkflow(W2) racing CompleteWorkflow(W1)+StartWaitingWorkflows under <=2/<=3 preemptions: no workflow left BUFFERED with a free slot.",
         design_ref="5 (C05)",
         note=E1_NOTE,
     ),
@@ -52,7 +52,7 @@ CHECKS = {
         engine="E1 sched (+E2/E3 audit rows)",
         category="model_checking",
         technique="explicit-state model checking of the real handlers with SQL triggers recording every durable status change; each recorded change checked against a pinned copy of the published transition table",
-        text="Every durable status change (trigger audit rows, rolled back with their transaction) of every transition of an exhaustive exploration (all orders x lost ack / cancel / recovery sweep / signal) is in the published table; a completed status is left only while handling JumpToStage/RestartStage. The pinned table is diffed against models/status.py so editing the table is itself reported.",
+        text="Every durable status change (trigger audit rows, rolled back with their transaction) of every transition of an exhaustive exploration (all orders x worker death / cancel / recovery sweep / signal / operator pause+resume+cancel / operator restart) is in the published table; E3: CancelWorkflow racing CompleteWorkflow / StartWorkflow / CompleteStage (the workflow row has no version column), racing StartStage / CompleteStage / CancelStage pairs; a completed status is left only while handling JumpToStage/RestartStage. The pinned table is diffed against models/status.py so editing the table is itself reported.",
         design_ref="5 (C06)",
         note=E1_NOTE,
     ),
@@ -60,7 +60,7 @@ CHECKS = {
         engine="E1 sched",
         category="model_checking",
         technique="explicit-state model checking of the real handlers: a cancel request injected in every reachable state of every delivery order (the cancel message itself may be overtaken)",
-        text="Cancel injected in every reachable state x all delivery orders of the remaining messages (+1 lost ack / early delivery in thorough). Oracle: no task body executes in any transition after the one that committed is_canceled; at quiescence the workflow is final, unfinished stages are CANCELED ('in effect finished' = every task ran to a recorded result, only Complete* bookkeeping pending, may keep the natural status).",
+        text="Cancel injected in every reachable state x all delivery orders of the remaining messages (+1 worker death / early delivery in thorough); E2: cancel requested before every step of the in-order run x a crash after every commit made from then on, restart, recovery, drain. Oracle: no task body executes in any transition after the one that committed is_canceled or the CancelWorkflow's processed record; at quiescence the workflow is final, unfinished stages are CANCELED ('in effect finished' = every task ran to a recorded result, only Complete* bookkeeping pending, may keep the natural status).",
         design_ref="5 (C17)",
         note=E1_NOTE,
     ),
@@ -68,7 +68,7 @@ CHECKS = {
         engine="E1 sched + E2 crash + E3 ilv",
         category="model_checking",
         technique="explicit-state model checking of the real handlers with the real recovery sweep injected before every delivery of every order; plus crash-point enumeration comparing one vs. two sweeps",
-        text="A recovery sweep (run_recovery) injected in every reachable state of every delivery order, once or twice (also twice in a row), of every workload: outcome must stay within what is reachable without a sweep and no task may execute more often per arming than without a sweep. E2: at every crash image of 6 workloads, restart + one sweep vs. restart + two sweeps give the same outcome and execution counts. E3: a real run_recovery() thread racing one handler (RunTask, StartTask, CompleteTask, StartStage, CompleteStage, polling RunTask, ContinueParentStage) at statement level under <=2 / <=3 preemptions.",
+        text="A recovery sweep (run_recovery) injected in every reachable state of every delivery order, once or twice (also twice in a row), of every workload (incl. task-less gate stages and two-task stages with builder-planned before-stages): outcome must stay within what is reachable without a sweep and no task may execute more often per arming than without a sweep. E2: at every crash image of 6 workloads, restart + one sweep vs. restart + two sweeps give the same outcome and execution counts. E3: a real run_recovery() thread racing one handler (RunTask, StartTask, CompleteTask, StartStage, CompleteStage, polling RunTask, ContinueParentStage) at statement level under <=2 / <=3 preemptions.",
         design_ref="5 (C10)",
         note=E1_NOTE + "",
     ),
@@ -84,7 +84,7 @@ CHECKS = {
         engine="E2 crash + statement fault injector",
         category="fault_enumeration",
         technique="exhaustive crash-point enumeration (image after every commit) plus exhaustive statement-level fault injection through the real connection's execute(), event store in the same database",
-        text="Every commit image of 13 workload runs, and an exception (sqlite 'database is locked' / RuntimeError) raised before every single statement of every RunTask/CompleteTask/CompleteStage step (every step in thorough): no completion event without its committed completion, no regularly committed completion without its event, the synchronous subscriber never saw an event that is not durable, sequences unique and increasing, no transaction left open.",
+        text="Every commit image of 13 workload runs, and an exception (sqlite 'database is locked' / RuntimeError) raised before every single statement - and a failing COMMIT at every commit - of every RunTask/CompleteTask/CompleteStage step (every step in thorough); the instant just before every commit is a crash point for the subscriber log too: no completion event without its committed completion, no regularly committed completion without its event, the synchronous subscriber never saw an event that is not durable, sequences unique and increasing, no transaction left open.",
         design_ref="5 (C13)",
         note="Trusted: SQLite atomic commit, CPython; one fault per run; FIFO (+LIFO) baseline.",
     ),
@@ -92,7 +92,7 @@ CHECKS = {
         engine="E1 sched",
         category="model_checking",
         technique="explicit-state model checking of the real handlers over every number of consecutive transient failures 0..max_attempts+2, all delivery orders",
-        text="k = 0..12 consecutive TransientErrors x {with, without context_update} x task position 1-3 of 3 with a parallel sibling stage x all delivery orders (+ lost ack / early delivery / sweep in thorough), plus polling tasks: attempt n sees the progress saved by attempt n-1, executions <= max_attempts (10), beyond the limit task/stage/workflow end TERMINAL, below it they succeed.",
+        text="k = 0..12 consecutive TransientErrors x {with, without context_update} x task position 1-3 of 3 with a parallel sibling stage x all delivery orders (+ lost ack / early delivery / sweep in thorough), plus polling tasks and a worker death at any point of any delivery of a k=10 run: attempt n sees the progress saved by attempt n-1, executions <= max_attempts (10), beyond the limit task/stage/workflow end TERMINAL, below it they succeed.",
         design_ref="5 (C14)",
         note=E1_NOTE + " max_stage_wait_retries is 20 here so the engine's unrelated 1-hour give-up does not race the task's backoff.",
     ),
@@ -100,7 +100,7 @@ CHECKS = {
         engine="E1 sched",
         category="model_checking",
         technique="explicit-state model checking of the real handlers over loop shapes x requested iterations x max-jumps settings, all delivery orders; frontier emptied = termination",
-        text="Self loop, 2-4 stage cycles, loop with side branch and fan-in, forward jump over a diamond x requested iterations 0..limit+2 x _max_jumps in {0,1,2,3,default 10} (workflow- and stage-level) x all delivery orders (+lost ack / sweep in thorough): jumps performed = min(requested, limit); at the limit source TERMINAL and workflow failed; loop body runs once per iteration, everything else once (reference re-arm set computed independently); bypassed stages SKIPPED and never run; every exploration reaches a fixpoint.",
+        text="Self loop, 2-4 stage cycles, loop with side branch and fan-in, forward jump over a diamond, and EVERY loop body that is a single-root/single-sink DAG on 3-5 stages (all 110 up to isomorphism, both declaration orders; 6 stages = 1960 bodies in thorough, VERIF_SEED selecting which eighth) x requested iterations 0..limit+2 x _max_jumps in {0,1,2,3,default 10} (workflow- and stage-level) x all delivery orders (+lost ack / sweep in thorough): jumps performed = min(requested, limit); at the limit source TERMINAL and workflow failed; loop body runs once per iteration, everything else once (reference re-arm set computed independently); bypassed stages SKIPPED and never run; every exploration reaches a fixpoint.",
         design_ref="5 (C15)",
         note=E1_NOTE,
     ),
@@ -108,7 +108,7 @@ CHECKS = {
         engine="E1 sched + E5 enum",
         category="model_checking",
         technique="explicit-state model checking of the real handlers: every task execution of every delivery order compared with an independent reference merge of the ancestors' durable outputs; exhaustive permutation enumeration for reducers",
-        text="Every DAG shape up to 4 stages + chains/diamonds/fans/loops with overlapping scalar and list keys and own-context overrides, all delivery orders: what each task execution saw equals the reference merge (nearest path-ordered ancestor wins, own value wins, lists accumulate, no non-ancestor key) of the outputs durable in the pre-state. Reducers: every permutation of 2-3 (4 in thorough) branch outputs over a value alphabet with duplicates, and end to end through a 3-branch fan under every completion order.",
+        text="Every DAG shape up to 4 stages + chains/diamonds/fans/loops with overlapping scalar and list keys and own-context overrides, all delivery orders: what each task execution saw equals the reference merge (nearest path-ordered ancestor wins, own value wins, lists accumulate, no non-ancestor key) of an independent model of what every stage published in its current arming (built from the execution ledger, reset on re-arm; jump tasks that publish extra keys only in abandoned iterations; mixed-type own values); the durable outputs of every finished stage equal that model. Reducers: every permutation of 2-3 (4 in thorough) branch outputs over an alphabet with duplicates, falsy and negative values, missing keys, scalars / lists, and end to end through a 3-branch fan under every completion order.",
         design_ref="5 (C16)",
         note=E1_NOTE + " Only path-ordered keys are asserted (the ancestor merge orders unrelated branches by set iteration).",
     ),
@@ -140,7 +140,7 @@ CHECKS = {
         engine="E1 sched + E4 ops",
         category="model_checking",
         technique="explicit-state model checking of the real handlers with lost acks, worker restarts and filter rotation at any point, both negative-cache settings; exhaustive operation sequences on the real bloom filter",
-        text="All delivery orders x <=1 lost ack (quick; <=2 thorough) x <=1 restart x <=1 forced filter rotation, dedup_trust_negative_cache off and on (filter contents tracked in the state): whenever the delivered row id is already in processed_messages no handler is invoked and no task executes (>10k such redeliveries per quick run). Filter: every sequence of mark/hydrate/reset up to length 4 (5) over 6 ids and capacities 1..8: no false negative, authoritative only between hydrate and reset.",
+        text="All delivery orders x <=1 lost ack (quick; <=2 thorough) x <=1 restart after a long downtime (processed records aged by days) x <=1 forced filter rotation (with and without re-hydration), dedup_trust_negative_cache off and on (filter contents tracked in the state): whenever the delivered row id is already in processed_messages no handler is invoked and no task executes (>10k such redeliveries per quick run). Filter: every sequence of mark/hydrate/reset up to length 4 (5) over 6 ids and capacities 1..8: no false negative, authoritative only between hydrate and reset.",
         design_ref="5 (C09)",
         note=E1_NOTE,
     ),
@@ -156,7 +156,7 @@ CHECKS = {
         engine="E1 sched + E2 crash + E3 ilv",
         category="model_checking",
         technique="explicit-state model checking of the real handlers with a persistent or transient signal injected in every reachable state; crash-point enumeration of suspend / resume runs",
-        text="Signal (persistent / transient) sent in every reachable state of A->gate->Z under all delivery orders with <=1 lost ack (quick; <=2 and a recovery sweep in thorough): without a signal the gate is durably SUSPENDED; a persistent signal is consumed exactly once, the suspending task runs suspend-then-resumed with the payload, buffer empty, workflow SUCCEEDED; a transient signal resumes iff the gate was durably SUSPENDED when it was handled. E2: every commit image of three runs (signal before start / with RunTask / after suspend) x 2 restart orders. E3: persistent SignalStage racing RunTask-that-suspends / StartStage claim / StartTask at statement level, <=2 (quick) / <=3 (thorough) preemptions.",
+        text="Signal (persistent / transient) sent in every reachable state of A->gate->Z under all delivery orders with <=1 lost ack (quick; <=2 and a recovery sweep in thorough): without a signal the gate is durably SUSPENDED; a persistent signal is consumed exactly once, the suspending task runs suspend-then-resumed with the payload, buffer empty, workflow SUCCEEDED; a transient signal resumes iff the gate was durably SUSPENDED when it was handled; a gate needing 2 / 3 signals with as many distinct persistent signals sent at any moments consumes each exactly once. E2: every commit image of three runs (signal before start / with RunTask / after suspend) x 2 restart orders (no consumed signal may be left in the buffer). E3: persistent SignalStage racing RunTask-that-suspends / StartStage claim / StartTask at statement level, <=2 (quick) / <=3 (thorough) preemptions.",
         design_ref="5 (C18)",
         note=E1_NOTE,
     ),
@@ -164,7 +164,7 @@ CHECKS = {
         engine="E5 enum",
         category="exploration",
         technique="exhaustive small-scope enumeration of stage records and message instances through the real store and both queue serialisers, compared field by field",
-        text="Every enum member and every optional field over {None,'',value,unicode}, 0-3 tasks, 27 JSON values in context/outputs (empty, nested, unicode incl. astral, quotes, control characters, 2^63, floats, 64 KB, deep nesting), one field varied at a time (pairs in thorough): store() -> retrieve() and retrieve_stage() field-by-field equal, task order kept, three read-modify-write rounds leave untouched fields and the sibling stage unchanged. Every message class x every field domain through queue.push and AtomicTransaction.push_message: same type and fields after poll, both serialisers write the same payload.",
+        text="Every enum member and every optional field over {None,'',value,unicode}, 0-3 tasks, 28 JSON values in context/outputs (empty, nested, unicode incl. astral, quotes, control characters, 2^63, floats, 64 KB, deep nesting, '_'-prefixed keys at every depth), one field varied at a time (pairs in thorough): store() -> retrieve() and retrieve_stage() field-by-field equal, task order kept, six read-modify-write rounds (context / outputs / status / task) through the four save paths (store and transaction, with and without expected_phase) leave untouched fields and the sibling stage unchanged. Every message class x every field domain through queue.push and AtomicTransaction.push_message: same type and fields after poll, both serialisers write the same payload.",
         design_ref="5 (C19)",
         note="Small-scope hypothesis over the listed alphabets; only JSON-representable values are claimed; SQLite backend.",
     ),
